@@ -208,7 +208,8 @@ fn observe(text: &[u8]) -> Result<Obs, String> {
     Ok(Obs { json, stream, walk })
 }
 
-fn check(text: &[u8], marks: &[Mark], paths: &[Vec<Step>], expected: &Value, docs: &Value, brk: Brk, space: &str, rep: &mut Report) {
+/// Returns the signature of the first disagreement of `to_json_document` (None when it agrees).
+fn check(text: &[u8], marks: &[Mark], paths: &[Vec<Step>], expected: &Value, docs: &Value, brk: Brk, space: &str, rep: &mut Report) -> Option<String> {
     rep.trans(1);
     let size = text.len();
     let case = || json!({"kind":"doc","space":space,"hex":hex(text),"doc":show(text),"expected":expected,"docs":docs,"brk":brk.name(),"marks":ygen::marks_json(marks, paths)});
@@ -220,19 +221,23 @@ fn check(text: &[u8], marks: &[Mark], paths: &[Vec<Step>], expected: &Value, doc
                 c["panic"] = json!(p);
                 c
             });
-            return;
+            return Some("PANIC:load".into());
         }
         Ok(Err(e)) => {
             let st = ygen::style_at(marks, text.len());
-            rep.fail(&format!("load:build-error:{e}:last-token={st}:{}", brk.name()), size, case);
-            return;
+            let sig = format!("load:build-error:{e}:last-token={st}:{}", brk.name());
+            rep.fail(&sig, size, case);
+            return Some(sig);
         }
         Ok(Ok(o)) => o,
     };
     // 1. to_json_document
     let mut sig1: Option<String> = None;
     match &obs.json {
-        Err(_) => rep.fail("load:to_json_document:invalid-json", size, case),
+        Err(_) => {
+            rep.fail("load:to_json_document:invalid-json", size, case);
+            sig1 = Some("load:to_json_document:invalid-json".into());
+        }
         Ok(got) => {
             if ygen::first_diff(expected, got, &mut Vec::new()).is_some() {
                 let gd = as_docs(docs, got);
@@ -290,6 +295,7 @@ fn check(text: &[u8], marks: &[Mark], paths: &[Vec<Step>], expected: &Value, doc
             }
         }
     }
+    sig1
 }
 
 static DUMP: Mutex<Option<std::io::BufWriter<std::fs::File>>> = Mutex::new(None);
@@ -303,9 +309,9 @@ fn explore(ctx: &Ctx, rep: &mut Report) {
     let r = ygen::explore_plan(ctx, &spaces, |c, rep| {
         rep.input();
         rep.distinct(c.text);
-        check(c.text, c.marks, c.paths, c.expected, c.docs, c.brk, c.space, rep);
+        let lib = check(c.text, c.marks, c.paths, c.expected, c.docs, c.brk, c.space, rep);
         if dump_mod > 0 && h64(c.text) % dump_mod == 0 {
-            let line = format!("{}\t{}\n", hex(c.text), c.docs);
+            let line = format!("{}\t{}\t{}\n", hex(c.text), c.docs, lib.as_deref().unwrap_or("-"));
             if let Some(w) = DUMP.lock().unwrap().as_mut() {
                 w.write_all(line.as_bytes()).unwrap();
             }
